@@ -330,6 +330,21 @@ def bodies(ctx):
     for j in range(n):
         tree = render.random_tree(rng, maxnodes=rng.choice([5, 12, 40]), maxdepth=6)
         yield render.random_rendering(tree, rng), {"src": "render", "j": j}
+    # valid bodies whose LAST data element is a CDATA section quoting the very end tags that follow it (a memo quoting markup):
+    # cut off inside that section, what remains LOOKS complete to anything that merely skips what it cannot read
+    for j in range(6 if ctx.tier == "quick" else 120):
+        tree = render.random_tree(rng, maxnodes=rng.choice([4, 9, 20]), maxdepth=5)
+        flat = render.render(tree, lambda i, d: (True, False), lambda k: "")
+        m = None
+        for m in re.finditer(r"<([A-Z0-9._]+)>([^<>]+)</\1>", flat):
+            pass
+        if m is None:
+            continue
+        rest = flat[m.end(2):]           # </LEAF></PARENT>...</ROOT>
+        quoted = rng.choice(["", "see ", m.group(2) + " "]) + rest + rng.choice(["", " ok"])
+        body = flat[: m.start(2)] + "<![CDATA[" + quoted + "]]>" + rest
+        a = m.start(2) + len("<![CDATA[")
+        yield body, {"src": "cdata-quoting-end-tags", "j": j, "cdata_span": [a, a + len(quoted) + 2]}
 
 
 def run_shard(ctx):
@@ -354,6 +369,11 @@ def run_shard(ctx):
         ctx.count("bodies")
         judge(ctx, body, {"kind": "none"}, via_tree=(bi % 5 == 0))
         flist = list(faults(body, rng, every_char=thorough and bi % 4 == 0, limit=120 if not thorough else 400))
+        if meta.get("cdata_span"):
+            a, b = meta["cdata_span"]
+            cuts = list(range(a, b + 1))
+            flist += [(body[:c], {"kind": "truncate", "at": c, "inside": "cdata"}) for c in (cuts if len(cuts) <= 60 else rng.sample(cuts, 60))]
+            ctx.count("bodies_with_cdata_quoting_end_tags")
         for fi, (text, fault) in enumerate(flist):
             if text == body:
                 continue
